@@ -168,7 +168,8 @@ def run_c01(pid, tier):
     n = 250 if tier == "quick" else 2500
     def mk(rng):
         g = Gen(rng, text_alpha=C01_ALPHA, kinds=["text", "text", "text", "esc", "cmt", "expr", "if", "for", "match", "call", "iflet"], depth=2,
-                cmt_bodies=[" c ", "", "*", "**", " **", "@", "* @ *", " }{ ", "\n", "x*", "*x", "@@", "\xff".encode("latin1").decode("latin1")])
+                cmt_bodies=[" c ", "", "*", "**", " **", "@", "* @ *", " }{ ", "\n", "x*", "*x", "@@", "\xff".encode("latin1").decode("latin1"),
+                            " static/*.css ", " */ ", "/*", " /* x */ ", "*/ \" /*", "//", "\\"])
         return g
     # every ASCII code point forced to appear, alone, in a text run of its own
     extra = []
@@ -178,6 +179,14 @@ def run_c01(pid, tier):
         else: src = "@()|a%sb%s" % (ch, ch); exp = "|a%sb%s" % (ch, ch)
         # text directly after the declaration is trimmed if it is whitespace: start with a marker
         extra.append(dict(canon=("@use super::wrap_html;\n@(" + DECL + ")\n" + src[3:]).encode(), perts=[], expect=[exp.encode()] * 3, items=None))
+    # long text runs: a multi-byte character at every position around the 4096 / 8192 / 16384 byte marks of one run
+    for mark in ([4096, 8192] if tier == "quick" else [1024, 2048, 4096, 8192, 16384, 65536]):
+        for ch in ["é", "€", "𝄞"]:
+            for back in range(0, len(ch.encode()) + 1):
+                run = "a" * (mark - back) + ch + "b" * 7
+                extra.append(dict(canon=("@use super::wrap_html;\n@(" + DECL + ")\n|" + run).encode(), perts=[], expect=[("|" + run).encode()] * 3, items=None))
+    run = ("åäö " * 13 + "\n") * 420
+    extra.append(dict(canon=("@use super::wrap_html;\n@(" + DECL + ")\n|" + run).encode(), perts=[], expect=[("|" + run).encode()] * 3, items=None))
     # comment bodies over {*, @, space, x, newline} exhaustively (to length 4 quick / 6 thorough), between two text markers
     L = 4 if tier == "quick" else 6
     for l in range(0, L + 1):
@@ -253,7 +262,7 @@ def run_c04(pid, tier):
     n = 200 if tier == "quick" else 2000
     mk = lambda rng: Gen(rng, kinds=["text", "expr", "call", "call", "call", "if", "for", "cmt", "esc"], depth=3 if tier == "quick" else 4, max_items=3, callees=CALLEE_BLOCKS)
     uses_for = lambda d: tuple(use_path(d, c) for c in sorted(CALLEE_BLOCKS)) + ("crate::P",)
-    return suite(pid, tier, mk, n, extra_files={p: c.encode() for p, c in C04_FILES.items()}, callee_bodies=c04_bodies(), dirs=["", "", "sub/", "sub/deep/", "other/"], uses_for=uses_for,
+    return suite(pid, tier, mk, n, extra_files={p: c.encode() for p, c in C04_FILES.items()}, callee_bodies=c04_bodies(), dirs=["", "", "sub/", "sub/deep/", "other/", "only/dirs/here/"], uses_for=uses_for,
                  max_src=1600 if tier == "quick" else 5000,
                  rule="acyclic call graphs: callers in the root, a child, a grandchild and an unrelated sibling module call templates with 0-3 Content parameters located in the root, child and grandchild modules, "
                       "directly and through intermediate templates that forward their block ({@:c()}), chains of two intermediates across modules; arguments mix Rust expressions and blocks that are empty, "
@@ -274,7 +283,7 @@ class ExprGen:
         parts = []; val = ""
         for _ in range(R.randint(0, 5)):
             k = R.choice(["plain", "plain", "esc", "delim", "uni"])
-            if k == "plain": c = R.choice(["a", "b", " ", "x", "é", "/", "*", "/*", "*/", "//", "'", "<", "&"]); parts.append(c); val += c
+            if k == "plain": c = R.choice(["a", "b", " ", "x", "é", "/", "*", "/*", "*/", "//", "'", "<", "&", "  ", "\t", "\n", "\n    ", " \n"]); parts.append(c); val += c
             elif k == "delim": c = R.choice([")", "(", "]", "[", "}", "{", ")]}", "@"]); parts.append(c); val += c
             elif k == "esc":
                 e, v = R.choice([("\\n", "\n"), ("\\r", "\r"), ("\\t", "\t"), ("\\\\", "\\"), ("\\0", "\0"), ("\\'", "'"), ('\\"', '"'), ("\\x41", "A"), ("\\x7e", "~")])
@@ -463,6 +472,7 @@ C13_TYPES = [  # (declared type, rust value, how the body prints it, expected te
     ("Vec<ContentType>", "vec![ContentType]", "@{x}.len()", "1"), ("Option<&'a ContentType>", "None", "@{x}.is_none()", "true"),
     ("Content", '|o| { use std::io::Write; o.write_all(b"<blk>") }', "@:{x}()", "<blk>"),
     # a user type that is itself called Content, behind a prefix the type grammar separates with a space: not a block parameter
+    ("(u8,)", "(5,)", "@{x}.0", "5"), ("&[(u32,)]", "&[(1,), (2,)]", "@{x}.len()", "2"), ("Vec<(&'a str,)>", 'vec![("v",)]', "@{x}[0].0", "v"), ("Map<u8, (u8,),>", "Map::new()", "@{x}.len()", "0"),
     ("&'a Content", "&Content", "@{x}", "UC"), ("&'_ Content", "&Content", "@{x}", "UC"), ("& Content", "&Content", "@{x}", "UC"), ("&'a  Content", "&Content", "@{x}", "UC"),
     ("Option<&'a Content>", "Some(&Content)", "@{x}.unwrap()", "UC"), ("&[Content]", "&[Content, Content]", "@{x}.len()", "2"), ("(u8, Content)", "(1, Content)", "@{x}.1", "UC"),
 ]
@@ -480,7 +490,9 @@ def run_c13(pid, tier):
     USES = ["std::fmt::Display", "std::collections::HashMap as Map", "crate::{ContentType, Contents, MyContent}", "crate::Content", "std::cmp::*", "std::fmt::{self, Write as FmtWrite}",
             # imported names that end in / resemble the names the generated header itself imports (io, Write, Html, ToHtml)
             "crate::models::Portfolio", "crate::models::Studio", "crate::models::audio", "crate::util::SafeHtml", "crate::util::NotToHtml", "crate::util::LineWrite", "crate::util::stdio",
-            "crate::util::html", "crate::util::write", "std::io::BufWriter", "std::io::Write as IoWrite", "crate::util::{SafeHtml as H2}", "std::fmt::Write as _"]
+            "crate::util::html", "crate::util::write", "std::io::BufWriter", "std::io::Write as IoWrite", "crate::util::{SafeHtml as H2}", "std::fmt::Write as _",
+            # several glob imports in one preamble
+            "std::collections::*", "std::iter::*", "crate::models::*"]
     cases = []
     for i in range(n):
         k = rng.randint(0, 8)
@@ -497,6 +509,7 @@ def run_c13(pid, tier):
             args.append(val)
         sep = rng.choice([", ", ",", ",\n    ", ", "])
         uses = list(USES[:4]) + rng.sample(USES[4:], rng.randint(0, 4))
+        if rng.random() < 0.3: uses += [g for g in ("std::collections::*", "std::iter::*", "crate::models::*", "std::cmp::*") if g not in uses][:rng.randint(2, 3)]
         rng.shuffle(uses)
         lifetimes = rng.choice(["<'a>", "<'a, 'b>", "<'a,'b>", "< 'a>"]) if need_a or rng.random() < 0.2 else ""
         open_ws = rng.choice(["", " ", "\n  "]); close_ws = rng.choice(["", " ", "\n"])
@@ -518,6 +531,10 @@ def run_c13(pid, tier):
             oracle_fail.append((c["canon"], "a well-formed declaration is not accepted (%s): %s" % (st, code.decode("utf8", "replace")[:300]), None)); continue
         # impl-side statement of the property on the generated text
         txt = code.decode("utf8", "replace")
+        # declared types verbatim: every parameter that is not a block parameter appears in the signature as written
+        for p in c["params"]:
+            if not re.match(r"^\w+\s*:\s*Content$", p) and ("  %s,\n" % p) not in txt:
+                oracle_fail.append((c["canon"], "the declared parameter `%s` is not in the generated signature verbatim" % p, dict(code=txt[:900]))); break
         for u in c["uses"]:
             if ("use %s;\n" % u) not in txt:
                 oracle_fail.append((c["canon"], "the line `@use %s;` did not become the identical use item" % u, dict(code=txt[:800]))); break
